@@ -149,18 +149,6 @@ func (m *Model) judgeCreate(c *Call, v *Verdict, args [][]byte) {
 		if nonce <= m.Issued[string(token)] {
 			out = append(out, clause(pC07, "ESDTNFTCreate/not-increasing", "nonce %d is not above the highest nonce ever issued for %q (%d)", nonce, token, m.Issued[string(token)]))
 		}
-		// the log entry announces the stored entry
-		okLog := false
-		for _, l := range res.Out.Logs {
-			if l != nil && string(l.Identifier) == c.Fn && len(l.Topics) >= 3 {
-				if t, err := RefDecodeToken(l.Topics[2]); err == nil && t.Value != nil && t.Value.Cmp(qty) == 0 && t.Meta.Equal(meta) && bytes.Equal(l.Topics[0], token) && bytes.Equal(l.Topics[1], beNonce(nonce)) {
-					okLog = true
-				}
-			}
-		}
-		if !okLog {
-			out = append(out, clause(pC08, "ESDTNFTCreate/log", "the create log does not carry token, nonce and the stored entry"))
-		}
 		acc.Counter[string(token)] = nonce
 		acc.setEntry(suffix, &Entry{Value: new(big.Int).Set(qty), Meta: meta})
 		m.addSupply(suffix, qty)
@@ -518,11 +506,10 @@ func (m *Model) judgeSetUserName(c *Call, v *Verdict, args [][]byte, sndLocal, d
 		return // renaming while renaming is disabled: outside the statements
 	}
 	v.Known, v.Side = true, "account"
-	if dstLocal {
-		v.Charge = u64p(m.gas(c.Shard, "SaveUserName")) // charged at the execution that writes the name
-		if !isDNS {
-			v.Charge = nil
-		}
+	if dstLocal && sndLocal && isDNS {
+		// C16 speaks about sender-side executions: only the same-shard execution (which is both) is priced here; a
+		// destination-side delivery is left to the gas-is-never-created monitor
+		v.Charge = u64p(m.gas(c.Shard, "SaveUserName"))
 	}
 	if !isDNS {
 		v.Labels = append(v.Labels, "unauthorised-account-call")
